@@ -39,7 +39,7 @@ CFG = {
     "stages": ["go:gen", "go:impl", "lean:judge"],
     "pregen": pregen,
     "theorems": [T + n for n in ["bellmanFord_correct", "pickMin_spec", "astar_optimal", "consistent_zero", "heuristic_consistent",
-                                 "polyLen_ge_chord", "euclidR_tri", "C19_route", "C19_unreachable", "build_wf", "C19_built", "C19_history"]],
+                                 "polyLen_ge_chord", "euclidR_tri", "C19_route", "C19_unreachable", "build_wf", "C19_built", "C19_history", "C19_gap_not_minimal"]],
     "trusted_base": [
         "Lean 4.33.0 kernel; axioms of every theorem printed by #print axioms must be within {propext, Classical.choice, Quot.sound}",
         "model lean/GeomV/C19/Model.lean is tied to /repo/route/route.go and to gonum v0.9.3 graph/path.AStar by the correspondence run on every check "
@@ -58,7 +58,8 @@ CFG = {
     "rule": "each case is a HISTORY of AddLink and ShortestRoute calls on ONE Network (queries asked again after further links: joining links, "
             "shortcuts, faster links), every answer judged against the verified Bellman-Ford optimum and the brute-force nearest nodes of the network "
             "as it was at that moment; networks of 1-60 nodes plus 60-400-node road/town networks (several R-tree leaves, scales 1 and 1/128) with "
-            "query points tens to thousands of units from every node; grids at false origins 2^30..2^40 (both signs) with query pairs closer than 1e-9 relative "
+            "query points tens to thousands of units from every node; junction networks at magnitudes 1e3..1e9 whose link ends differ by 1-4 ulps or up to "
+            "4.5e-10 relative (must share the node) or 2e-9 relative (must not); grids at false origins 2^30..2^40 (both signs) with query pairs closer than 1e-9 relative "
             "that snap to different nodes; 30% of exact cases rescaled by 2^-30..2^30; routes re-verified after the whole history, link inputs passed as "
             "windows of one flat buffer and compared bit for bit afterwards; shuffled link order and random link orientation, no self-loops/parallel links: "
             "hand corpus (route tests, DESIGN 6-link case, fast-long vs slow-short, components), grids with random deletions/detoured links/long chords, "
